@@ -2018,3 +2018,49 @@ func releaseGivenWhenConcurrent(v ssa.Value) bool {
 	}
 	return true
 }
+
+// ruleEveryBlockDecoded: in the reading goroutine of the concurrent Reader every block that FrameDataBlock.Read
+// delivered is handed to a decoding goroutine (which compares its checksum) before the next block is read. A path
+// from the read back to the next read without the spawn consumes a block - and the checksum declared for it -
+// without anyone looking at it.
+func ruleEveryBlockDecoded(c *Check, p *Program, rule string) {
+	fn := findFn(c, p, rule, "internal/lz4stream", "Blocks.initR")
+	if fn == nil {
+		return
+	}
+	n := 0
+	for _, g := range withAnon(fn) {
+		for _, ci := range callsIn(g) {
+			if _, isCall := ci.(*ssa.Call); !isCall || !calleeIs(ci, pkgStream, "FrameDataBlock.Read") {
+				continue
+			}
+			n++
+			c.Sites++
+			isSpawn := func(in ssa.Instruction) bool {
+				gi, ok := in.(*ssa.Go)
+				if !ok {
+					return false
+				}
+				return callReaches(gi, func(x ssa.CallInstruction) bool { return calleeIs(x, pkgStream, "FrameDataBlock.Uncompress") }) || func() bool {
+					if mc, isMC := gi.Call.Value.(*ssa.MakeClosure); isMC {
+						if f, isF := mc.Fn.(*ssa.Function); isF {
+							for _, h := range deepFuncs(f, 1) {
+								for _, cj := range callsIn(h) {
+									if calleeIs(cj, pkgStream, "FrameDataBlock.Uncompress") {
+										return true
+									}
+								}
+							}
+						}
+					}
+					return false
+				}()
+			}
+			again, trail := reachAvoid(g, ci.(ssa.Instruction), func(in ssa.Instruction) bool { return in == ci.(ssa.Instruction) }, isSpawn)
+			c.Cond(!again, rule, "initR.reader#every-block-decoded", p.InstrPos(ci), "every block read from the source is handed to a decoding goroutine before the next one is read (its checksum is compared there)", "no path from the read to the next read avoids the spawn", "the next block can be read without the previous one having been handed to a decoder ("+strings.Join(trail, " -> ")+"): the block and its declared checksum are consumed unverified")
+		}
+	}
+	if n == 0 {
+		c.Fail(rule, "initR.reader#every-block-decoded", p.Pos(fn.Pos()), "the block read of the reading goroutine is resolved", "no call of FrameDataBlock.Read in Blocks.initR (anchor unresolved)")
+	}
+}
